@@ -125,7 +125,7 @@ func init() {
 		"time.Since"})
 	addMutant(Mutant{"C08-ranking-tie-break-removed", "C08", "x/evm/keeper/msg_assigner.go",
 		"return strings.Compare(a.address, b.address)", "return strings.Compare(a.address, a.address)",
-		"rankValidators|map range #2"})
+		"rankValidators|comparator breaks ties"})
 	addMutant(Mutant{"C08-package-state-on-runtime-path", "C08", "x/evm/keeper/msg_assigner.go",
 		"func rankValidators(ctx context.Context, validatorsInfos map[string]ValidatorInfo, relayWeights types.RelayWeightDec) (scoreSnapshot, error) {\n\tsdkCtx := sdk.UnwrapSDKContext(ctx)",
 		"var lastRankCount int\n\nfunc rankValidators(ctx context.Context, validatorsInfos map[string]ValidatorInfo, relayWeights types.RelayWeightDec) (scoreSnapshot, error) {\n\tlastRankCount += len(validatorsInfos)\n\tsdkCtx := sdk.UnwrapSDKContext(ctx)",
